@@ -1092,6 +1092,44 @@ def check_proto(ck, prog):
     ck.floor("C15-PROTO", 8)
 
 
+def check_post(ck, prog):
+    """When the delta filter is not the last in the chain it transforms, in place, what the next coder wrote during the
+    same call.  Every way out of the function after that call has to pass the transform (or the guard that nothing was
+    written): the call that returns LZMA_STREAM_END delivers the last bytes too."""
+    ck.rule("C15-POST", "delta coders: every return after the next coder's call passes the in-place transform or its "
+            "nothing-written guard")
+    for fn, file, post in (("delta_encode", "delta_encoder.c", "encode_in_place"), ("delta_decode", "delta_decoder.c", "decode_buffer")):
+        f = prog.fn(fn, file)
+        ck.saw_function(f)
+        calls = [b.id for b, i, e in f.iter_elems() for c in ex.calls(e, into_refs=False)
+                 if c.get("callee") is not None and ex.show(c["callee"]).endswith("next.code")]
+        pb = {b.id for b, i, e in f.iter_elems() for c in ex.calls(e, into_refs=False) if c.get("fn") == post}
+        if not calls or not pb:
+            raise AnalysisBroken("%s: call of the next coder / %s() not found" % (fn, post))
+        guards = {b.id for b in f.blocks.values() if b.term and "cond" in b.term and
+                  ex.show(ex.strip(b.term["cond"])).replace(" ", "") in ("size>0", "size!=0")}
+        seen, st, hit = set(), [y for y in f.blocks[calls[0]].succs if y is not None], None
+        if calls[0] in guards:
+            # the guard ends the block of the call: true edge -> transform, false edge -> nothing was written
+            t_ = f.blocks[calls[0]].succs[0]
+            st = [t_] if t_ is not None else []
+        while st:
+            x = st.pop()
+            if x in seen or x in pb or x in guards or x is None:
+                continue
+            seen.add(x)
+            if x == f.exit or any(e is not None and ex.deref(e).get("k") == "ret" for e in f.blocks[x].elems):
+                hit = x
+                break
+            st.extend(f.blocks[x].succs)
+        ck.ob("C15-POST", fn, hit is None, common.where(f),
+              "%s: %s() (or `size > 0` false) on every path from the next coder's call to a return" % (fn, post) if hit is None else
+              "%s(): a return (block %s) is reachable after the next coder's call without %s(): the bytes that call produced "
+              "(with LZMA_STREAM_END: the last bytes of the stream) leave the filter untransformed" % (fn, hit, post),
+              key="POST:" + fn)
+    ck.floor("C15-POST", 2)
+
+
 def run(ck):
     ck.explanation = (
         "Direction symmetry of every BCJ filter function (the flag only flips the sign of the pc term), exhaustive "
@@ -1109,6 +1147,7 @@ def run(ck):
     check_delta(ck, prog)
     check_stride(ck, prog)
     check_proto(ck, prog)
+    check_post(ck, prog)
     # a BCJ/delta coder that is re-used for the next Block starts from the given start offset / an empty history
     from . import reinit
     ck.rule("C15-INITCONS", "BCJ/delta coder members that the init function sets on some paths (now_pos, history, ...) are "
